@@ -71,6 +71,27 @@ def handwritten(chk, it):
 
 
 def spec_matrix(chk, src, K):
+    """on opaque tokens; if hashing/equality inspects versions beyond comparison (e.g. hash(str(self))) the order-only domain
+    aborts and the matrix is computed on concrete version pools with equal-but-differently-spelled twins instead."""
+    from .. import specalg
+    from ..absint import AnalysisError
+    try:
+        return _spec_matrix(chk, src, K)
+    except AnalysisError as e:
+        if "version token" not in str(e):
+            raise
+        chk.notes.append(f"R13.2: order-only lemma broken in __eq__/__hash__ ({e}); specifier matrix recomputed on concrete version pools with twins")
+    total = 0
+    try:
+        for pool in specalg.FALLBACK_POOLS:
+            specalg.ACTIVE_POOL = tuple(pool)
+            total += _spec_matrix(chk, src, K)
+    finally:
+        specalg.ACTIVE_POOL = None
+    return total
+
+
+def _spec_matrix(chk, src, K):
     dom = get_domain(src, K)
     it = dom.it
     ops = dom.operands
